@@ -281,7 +281,7 @@ inline void manyOpen(Ctx& c, long j)
 
 inline long count(Ctx& c)
 {
-    return kSeq5 + 2 + (c.thorough() ? kSeq4x2 + 500000 : 8000);
+    return kSeq5 + 2 + (c.thorough() ? kSeq4x2 + 2000000 : 8000);
 }
 inline void run(Ctx& c, long idx)
 {
@@ -496,7 +496,7 @@ inline void mergeCase(Ctx& c, long j)
 
 inline long count(Ctx& c)
 {
-    return 400 + (c.thorough() ? 500000 : 10000);
+    return 400 + (c.thorough() ? 3000000 : 10000);
 }
 inline void run(Ctx& c, long idx)
 {
